@@ -43,6 +43,8 @@ def layouts():
                                                          Rotator(label="rot", rotation=90), rnd()]), ip2, False))
     out.append(('disks', lambda: PassSequence([oval(disk_element_count=3), Transport(label="t1", duration=1, disk_element_count=4), rnd(disk_element_count=5)]), ip2, False))
     out.append(('spread-model', lambda: PassSequence([oval(), Transport(label="t1", duration=1), rnd()]), ip2, True))
+    out.append(('transport-first', lambda: PassSequence([Transport(label="t0", duration=1, velocity=1.0), oval(), Transport(label="t1", duration=1), rnd()]), ip2, False))
+    out.append(('rotator-first', lambda: PassSequence([Rotator(label="rot0", rotation=90, velocity=1.0), oval(), Transport(label="t1", duration=1), rnd()]), ip2, False))
     out.append(('three-roll', lambda: PassSequence([
         ThreeRollPass(label="o3", roll=Roll(groove=CircularOvalGroove(depth=8e-3, r1=6e-3, r2=40e-3, pad_angle=30), nominal_radius=160e-3, rotational_frequency=1), gap=2e-3),
         Transport(label="t", duration=1),
@@ -173,8 +175,14 @@ def run(chk):
             ip2 = Profile.round(diameter=0.94 * d0, **{k: v for k, v in ip.__dict__.items() if not k.startswith('_') and k not in ('cross_section', 'classifiers', 't')})
             try:
                 returned2 = seq.solve(ip2)
-            except RuntimeError as e:       # the physical models do not solve for this input: nothing to compare
-                chk.notes.append(f"{name}: re-solve with a smaller profile failed ({e})")
+            except Exception as e:       # noqa
+                fresh = mk()
+                try:
+                    fresh.solve(ip2)
+                    chk.fail('resolve-fails', f"[{name}] solving again with a smaller incoming profile fails with {type(e).__name__}: {e} - a fresh sequence solves it",
+                             {'layout': name})
+                except Exception:      # noqa  (the physical models do not solve for this input: nothing to compare)
+                    chk.notes.append(f"{name}: neither the re-solve nor a fresh sequence solves the smaller profile ({type(e).__name__})")
                 done.append(name)
                 continue
             check_sequence(chk, name + ' (solved again with a smaller incoming profile)', seq, returned2, ip2, prec)
@@ -196,8 +204,17 @@ def run(chk):
                     returned3 = seq.solve(ip2)
                     check_sequence(chk, name + ' (solved again after opening the first gap)', seq, returned3, ip2, prec)
                     chk.cov['evaluations'] += 1
-                except RuntimeError as e:
-                    chk.notes.append(f"{name}: re-solve with an opened gap failed ({e})")
+                except Exception as e:      # noqa
+                    # does an identical FRESH sequence with the opened gap solve?  then the failure is residue of the earlier solves
+                    fresh = mk()
+                    ffp = first_pass(fresh)
+                    ffp.gap = float(fp.gap)
+                    try:
+                        fresh.solve(ip2)
+                        chk.fail('resolve-fails', f"[{name}] the sequence solved, then solved again after opening the first gap to {float(fp.gap):.4g} fails with "
+                                 f"{type(e).__name__}: {e} - a fresh sequence with the same parameters solves", {'layout': name, 'gap': float(fp.gap)})
+                    except Exception:      # noqa
+                        chk.notes.append(f"{name}: neither the re-solve nor a fresh sequence solves with the opened gap ({type(e).__name__})")
         finally:
             for hf in ctx:
                 hf.hook.remove_function(hf)
